@@ -341,9 +341,16 @@ func (r Relation) String() string {
 }
 
 func (r Relation) Format(f fmt.State, verb rune) {
-	fu.WriteString(f, "{")
-
 	attrs := r.attrs.GetSorted()
+	for _, attr := range attrs {
+		if !identRE.MatchString(attr) {
+			// {|...| ...} only takes identifiers as names; print a plain set of tuples instead.
+			reprOrderableSet(f, r)
+			return
+		}
+	}
+
+	fu.WriteString(f, "{")
 	fu.Fprintf(f, "|%s| ", strings.Join(attrs, ", "))
 	projection := r.projectionBasedOnNames(attrs)
 	notFirst := false
